@@ -543,6 +543,38 @@ func (i *interpreter) onLoad(fr *frame, instr ssa.Instruction, p *value) {
 		if m, ok := (*p).(*omap); ok && m != nil && m.loc == nil {
 			m.loc = i.locByName(l.name+"(map)", false)
 		}
+		if s, ok := (*p).([]value); ok && !strings.HasSuffix(l.name, "(elems)") {
+			i.trackElems(s, l.name)
+		}
+	}
+}
+
+// trackElems makes the element cells of a slice held by a tracked field
+// tracked locations themselves (one location per backing array).
+func (i *interpreter) trackElems(s []value, name string) {
+	full := s[:cap(s)]
+	if len(full) == 0 {
+		return
+	}
+	if _, ok := i.cellLoc[&full[0]]; ok {
+		return
+	}
+	loc := i.locByName(fmt.Sprintf("%s(elems)#%d", locBase(name), len(i.cellLoc)), false)
+	for k := range full {
+		i.cellLoc[&full[k]] = loc
+	}
+}
+
+// onAppend logs writes into tracked spare capacity.
+func (i *interpreter) onAppend(fr *frame, dst []value, n int) {
+	if len(i.cellLoc) == 0 || len(dst)+n > cap(dst) {
+		return
+	}
+	full := dst[:cap(dst)]
+	for k := len(dst); k < len(dst)+n; k++ {
+		if l, ok := i.cellLoc[&full[k]]; ok && l.name != "obj" {
+			i.logEvent(fr.th, "write", l.id, 0, l.name, fr)
+		}
 	}
 }
 
@@ -553,6 +585,20 @@ func (i *interpreter) onStore(fr *frame, instr ssa.Instruction, p *value) {
 	if l, ok := i.cellLoc[p]; ok && l.name != "obj" {
 		i.logEvent(fr.th, "write", l.id, 0, l.name, fr)
 	}
+}
+
+type poolState struct{ items []value }
+
+func (i *interpreter) syncPool(p *value) *poolState {
+	if i.pools == nil {
+		i.pools = map[*value]*poolState{}
+	}
+	ps, ok := i.pools[p]
+	if !ok {
+		ps = &poolState{}
+		i.pools[p] = ps
+	}
+	return ps
 }
 
 func (i *interpreter) onMakeMap(fr *frame, instr *ssa.MakeMap, m *omap) {
